@@ -507,6 +507,7 @@ type enOp struct {
 	val  []byte
 	flag bool
 	n    int
+	b0   int // (evacuate / detach) scheduling-boundary counter when the evacuation was started
 
 	call, ret uint64
 	faulted   bool // a shard call of this operation was failed by the simulator
